@@ -300,4 +300,34 @@ def lines [BEq γ] (nl : γ) (s : List γ) : List (List γ) :=
   let parts := splitOnP (· == nl) s
   if parts.getLast? == some [] then parts.dropLast else parts
 
+/-! ## more of the library -/
+
+/-- `locate s pat` / `pat in s` on text: the first position at which `pat` is a prefix of the rest -/
+def findSub [BEq γ] (pat s : List γ) : Option Nat :=
+  (List.range (s.length + 1)).find? fun i => pat.isPrefixOf (s.drop i)
+
+/-- `split s pat n`: at most `n` pieces; the last one is the unsplit remainder, i.e. the remaining
+pieces joined by the separator again -/
+def splitn [BEq γ] (s pat : List γ) (n : Nat) : List (List γ) :=
+  let ps := split s pat
+  if n = 0 then [] else if ps.length ≤ n then ps else ps.take (n - 1) ++ [pat.intercalate (ps.drop (n - 1))]
+
+/-- `rsplit`: split from the right end (the pieces come out right to left) -/
+def rsplit [BEq γ] (s pat : List γ) : List (List γ) := (split s.reverse pat.reverse).map List.reverse
+def rsplitn [BEq γ] (s pat : List γ) (n : Nat) : List (List γ) :=
+  (splitn s.reverse pat.reverse n).map List.reverse
+
+/-- `merge d1 d2 …` with an optional combining function: the keys in order of first appearance;
+under each key the values found for it, left to right, folded with `f` (without `f`: the last
+one wins) -/
+def mergeE [BEq κ] (f : Option (β → β → Out β)) (dicts : List (List (κ × β))) : Out (List (κ × β)) :=
+  mapE (fun k =>
+      match dicts.filterMap (fun d => d.lookup k) with
+      | [] => .throw   -- cannot happen: `k` is one of the keys
+      | v :: vs =>
+        bind (match f with
+              | none => .ok ((v :: vs).getLast?.getD v)
+              | some f => foldlE f v vs) fun r => .ok (k, r))
+    (uniqueBy id (dicts.flatMap fun d => d.map (·.1)))
+
 end Noulith.SeqSpec
